@@ -608,8 +608,10 @@ def do_op(st, tok, quiet=False):
             touch(st, txid)
             if k == 'uA' or home:
                 # utxo_add has no account / network parameter: the library decides where the transaction row is
-                # filed, and its utxos_update loops over every network of the wallet
-                nets = w.network_list()
+                # filed.  Since fix a9251be it hands the account and network of the key to utxos_update, which then
+                # works on that ONE network (before, its loop went over every network of the wallet and refreshed the
+                # balances of the other networks too)
+                nets = [knw] if home else w.network_list()
                 w.utxo_add(addr, value, txid, n, conf)
                 touch_log(st)
                 facct = 0 if home else filed_account(st, txid, knw)
